@@ -56,7 +56,7 @@ FLOORS = {
     "thorough": {
         "hmm_instances": 1800, "ff_rows_checked": 5000, "seq_logprob_cells": 400000, "ffbs_scripts": 250000,
         "bs_scripts": 130000, "hmm_assess_cells": 400000, "hmm_T1": 300, "hmm_sparse": 600, "hmm_impossible_obs": 40,
-        "real_draw_tests": 28, "lg_instances": 1700, "kf_checks": 1700, "ks_checks": 1700, "lg_assess_points": 6500,
+        "real_draw_tests": 24, "lg_instances": 1700, "kf_checks": 1700, "ks_checks": 1700, "lg_assess_points": 6500,
         "lg_T1": 280, "lg_nonsquare": 1100,
     },
 }
@@ -89,7 +89,8 @@ def plan(tier, seed):
     shapes = [(K, M, T) for K in range(1, 5) for M in range(1, 5) for T in range(1, 7)]
     rng = np.random.default_rng([seed, 20, 0])
     eligible = [i for i, (K, M, T) in enumerate(shapes) if K >= 2 and T >= 2 and _in_tier(tier, seed, K, M, T)]
-    stat_shapes = set(int(i) for i in rng.choice(eligible, size=N_STAT[tier], replace=False))
+    # statistical instances alternate dense / sparse, so at least half of them can never be degenerate (one cell)
+    stat_shapes = {int(i): j for j, i in enumerate(sorted(rng.choice(eligible, size=N_STAT[tier], replace=False)))}
     for si, (K, M, T) in enumerate(shapes):
         if not _in_tier(tier, seed, K, M, T):
             continue
@@ -101,11 +102,11 @@ def plan(tier, seed):
                 "rng": [int(seed), 20, 1, si, r],
                 # un-jitted path on a few shapes: both sides of every `if T > 1`
                 "eager": r == 0 and T <= 2 and (K, M) in EAGER_HMM,
-                # 4096-script instances: every draw in thorough, the first draw per shape in quick
+                # 4096-script instances: every draw in thorough, the first two draws per shape in quick
                 "scripted": tier == "thorough" or K**T <= 1024 or r < 2,
             }
             if r == 0 and si in stat_shapes:
-                d["flavor"] = "dense" if (si % 2) else "sparse"
+                d["flavor"] = "dense" if (stat_shapes[si] % 2 == 0) else "sparse"
                 d["draws"] = N_DRAWS[tier]
             rl.append(d)
         for c in range(0, reps, chunk):
